@@ -195,6 +195,8 @@ check("C11", "an SSTable reads back exactly what was written", [
     ob("VerifC11_SeekAcrossBlocks", "pkg/sstable", "two data blocks: Seek(t) + Next*", "2 blocks", q={"budget_s": 300}),
     ob("VerifC11_ManyBlocks", "pkg/sstable", "a table of 18 (thorough 34) data blocks, one block-sized value each, so that the index block spans more than one restart interval: Seek(t) for a symbolic target on a fresh iterator or on one that was used before (a Seek past the end, or onto the last key) lands on the first key >= t, Next* yields the rest once, in order, with values and sequence numbers; Get(q) for a symbolic key finds exactly the written keys",
        "18 blocks of 16 KiB, 3 modes (seek+iterate, re-seek on a used iterator, point lookup), one-byte targets", "34 blocks", q={"budget_s": 500}, t={"budget_s": 1500}),
+    ob("VerifC11_LongKeysSharedPrefix", "pkg/sstable", "three entries with keys of 9, 10 and 17 free symbolic bytes (ascending): consecutive keys may share any prefix - none, a few bytes, whole 8-byte words - and differ anywhere; iteration yields exactly the three keys and values, Seek(k_i) lands on k_i, Get finds each",
+       "3 entries, key lengths 9/10/17, every key byte symbolic"),
     ob("VerifC11_FlipOneByte", "pkg/sstable", "one byte at any position of a finished table (data block, restart array, trailer, bloom section, index block, footer) replaced by a symbolic different value: open/iterate/seek/get fail or yield only written entries, ascending; no panic",
        "tables of 1-2 entries; every file position except the interior of the bloom bit array (5 representatives); every replacement value", "tables of 1-3 entries", q={"budget_s": 400}, t={"budget_s": 900}),
     ob("VerifC11_BloomNoFalseNegative", "pkg/bloom_filter", "real Add/Contains/SaveToFile/LoadBloomFilter on a 20-bit filter: no false negative", "<=2 keys, 20 bits, 7 hash functions"),
